@@ -17,7 +17,7 @@ type c10 struct{}
 func (c10) ID() string    { return "C10" }
 func (c10) Level() string { return "exploration" }
 func (c10) Rule() string {
-	return "valid family (a 3-service model with one of each resource, the corpus documents, and the positive boundary of every agreement rule) must load and satisfy an independent invariant checker; for each consistency rule every minimal edit violating exactly that rule (dangling reference of each kind incl. build secrets and service: namespaces of network_mode/ipc/pid, links, volumes_from; each exclusive pair; external volume with each creation parameter; secret/config with none, each pair and all of their sources; each disagreeing pair; container_name with scale/replicas > 1) delivered through {main file, override file, extended base, included file}; every labelled digraph with a cycle on <=3 services (4: every 7th quick, all thorough) as depends_on. Invalid -> error and no project. distinct = distinct (rule, route) outcomes and digraphs"
+	return "valid family (a 3-service model with one of each resource, the corpus documents, and the positive boundary of every agreement rule) must load and satisfy an independent invariant checker; for each consistency rule every minimal edit violating exactly that rule (dangling reference of each kind incl. build secrets and service: namespaces of network_mode/ipc/pid - alone and next to a plain or valid value of another namespace attribute -, links, volumes_from; each exclusive pair; external volume with each creation parameter; secret/config with none, each pair and all of their sources; each disagreeing pair; container_name with scale/replicas > 1) delivered through {main file, override file, extended base, included file}; every labelled digraph with a cycle on <=3 services (4: every 7th quick, all thorough) as depends_on. Invalid -> error and no project. distinct = distinct (rule, route) outcomes and digraphs"
 }
 func (c10) Assumptions() []string {
 	return []string{"the independent checker props.c10consistent encodes the rules of the statement over the typed project"}
@@ -90,6 +90,11 @@ func c10rules() []c10rule {
 		svc("network-mode-unknown-service", "    networks: !reset null\n    network_mode: \"service:nope\"\n"),
 		svc("ipc-unknown-service", "    ipc: \"service:nope\"\n"),
 		svc("pid-unknown-service", "    pid: \"service:nope\"\n"),
+		// the same next to a plain value of another namespace attribute
+		svc("pid-unknown-service-next-to-host-network", "    networks: !reset null\n    network_mode: host\n    pid: \"service:nope\"\n"),
+		svc("ipc-unknown-service-next-to-host-network", "    networks: !reset null\n    network_mode: host\n    ipc: \"service:nope\"\n"),
+		svc("pid-unknown-service-next-to-shareable-ipc", "    ipc: shareable\n    pid: \"service:nope\"\n"),
+		svc("pid-unknown-service-next-to-known-ipc-service", "    ipc: \"service:b\"\n    pid: \"service:nope\"\n"),
 		svc("links-unknown", "    links: [nope]\n"),
 		svc("volumes-from-unknown", "    volumes_from: [nope]\n"),
 		svc("exclusive-network-mode-networks", "    network_mode: host\n"),
